@@ -209,3 +209,18 @@ def check(ctx):
                 sites=[c.where() for c in ne + direct], site_key="skip")
         if ne:
             ctx.must_pass("5.skipped-cleanup-on-every-path", sk, ne, exits="all")
+
+    # -- 6. rolling back a preconfirmation always frees the transaction id itself --
+    with ctx.clause("6.unspend-clears-the-tx-marker"):
+        SPQ = "fuel_core_txpool::spent_inputs::SpentInputs"
+        ub = F.unit(f"{SPQ}::unspend_preconfirmed").root
+        pops = [c for c in ub.calls if c.bb in ub.live and c.name in ("pop", "remove", "pop_entry") and atom_match(Origins(ub, 1).atoms(c.args[0]), f"field:{SPQ}.spent_inputs")]
+        txpop = [c for c in pops if atom_match(Origins(ub, 2).atoms(c.args[1]), "agg:fuel_core_txpool::spent_inputs::InputKey::Tx")]
+        ctx.expect_sites("6.tx-marker-removal", txpop, at_least=1, what="spent_inputs.pop(&InputKey::Tx(tx_id))")
+        if txpop:
+            ctx.must_pass("6.tx-marker-removed-on-every-path", ub, txpop, exits="all",
+                          detail="every return of unspend_preconfirmed has removed the InputKey::Tx(tx_id) marker — also for a transaction the node never saw "
+                                 "(no tentative record): otherwise the rolled-back transaction is rejected as DuplicateTxId when it is submitted again")
+            ctx.arg_origin("6.marker-of-the-rolled-back-tx", txpop[0], 1, "param:2", depth=2)
+        tr = [c for c in ub.calls if c.bb in ub.live and c.name == "remove" and atom_match(Origins(ub, 1).atoms(c.args[0]), f"field:{SPQ}.tentative_spent")]
+        ctx.expect_sites("6.tentative-record-consumed", tr, exactly=1, what="tentative_spent.remove(&tx_id)")
